@@ -15,7 +15,7 @@ MOD = __name__
 
 RULE_TEXT = (
     "All LayeredArchitecture call sequences up to length 7 (quick) / 9 (thorough) over {layer(L1|L2), "
-    "containing_modules('pkg.m1'|'pkg.m2'|['pkg.m1']|['pkg.m2']|['pkg.m1','pkg.m2']), have_modules_with_names_matching(r), "
+    "containing_modules('pkg.m1'|'pkg.m2'|['pkg.m1']|['pkg.m2']|['pkg.m1','pkg.m2']|[]), have_modules_with_names_matching(r), "
     "with_layer()}, explored depth-first and cut at the first rejected call; all LayerRule call sequences up to length 6 "
     "(quick) / 7 (thorough) over the 15-call vocabulary cut at the first raising call; Hypothesis sequences of length "
     "<= 12 over 3 layer and 3 module names. Oracle: LayerBuilderModel / LayerRuleModel say per call accept, reject or "
@@ -33,7 +33,7 @@ ASSUMPTIONS = [
 M1, M2, M3 = "pkg.m1", "pkg.m2", "pkg.m3"
 RX = r"pkg\.r.*"
 ARCH_OPS = [("layer", "L1"), ("layer", "L2"), ("cm", M1), ("cm", M2), ("cm", [M1]), ("cm", [M2]), ("cm", [M1, M2]),
-            ("rx", RX), ("with_layer",)]
+            ("rx", RX), ("with_layer",), ("cm", [])]
 
 
 # ------------------------------------------------------------------- LayeredArchitecture
@@ -61,6 +61,9 @@ class LayerBuilderModel:
             self.pending = None
             return "accept"
         mods = [op[1]] if isinstance(op[1], str) else list(op[1])
+        if not mods:
+            # an empty list supplies no modules: the call itself is not rejected, but the layer stays pending
+            return "accept"
         assigned = {m for v in self.layers.values() if v for m in v}
         if any(m in assigned for m in mods) or len(set(mods)) != len(mods):
             return "reject"
@@ -303,7 +306,7 @@ def cases(draw):
     kind = draw(st.sampled_from(["arch", "arch", "rule"]))
     if kind == "arch":
         ops = [("layer", "L1"), ("layer", "L2"), ("layer", "L3"), ("cm", M1), ("cm", M2), ("cm", M3), ("cm", [M1]),
-               ("cm", [M2, M3]), ("cm", [M1, M3]), ("cm", [M3]), ("rx", RX), ("rx", r"pkg\.q.*"), ("with_layer",)]
+               ("cm", [M2, M3]), ("cm", [M1, M3]), ("cm", [M3]), ("rx", RX), ("rx", r"pkg\.q.*"), ("with_layer",), ("cm", [])]
         seq = draw(st.lists(st.sampled_from(ops), min_size=3, max_size=12))
     else:
         seq = [("based_on",), ("layers_that",)] if draw(st.booleans()) else []
